@@ -74,6 +74,8 @@ type Frame struct {
 	unsupp   []string
 	inFrom   map[*State]*ssa.BasicBlock
 	deadVals map[*ssa.Alloc]Val
+	varargs  map[string][]Val // slice term -> the values stored into the variadic array it was made from
+	arrElems map[*Cell]map[int64]Val
 }
 
 type engineError struct{ msg string }
@@ -952,6 +954,23 @@ func (fr *Frame) escapes(x *ssa.Alloc) bool {
 
 func (fr *Frame) storeVal(st *State, a *Addr, v Val) {
 	g := fr.g
+	if a.cell != nil && len(a.path) == 1 && a.path[0].isIndex {
+		if k, ok := isConstTerm(a.path[0].index); ok || strings.HasPrefix(a.path[0].index, "#x") {
+			var idx int64
+			if ok {
+				idx = k.Int64()
+			} else {
+				fmt.Sscanf(a.path[0].index[2:], "%x", &idx)
+			}
+			if fr.arrElems == nil {
+				fr.arrElems = map[*Cell]map[int64]Val{}
+			}
+			if fr.arrElems[a.cell] == nil {
+				fr.arrElems[a.cell] = map[int64]Val{}
+			}
+			fr.arrElems[a.cell][idx] = v
+		}
+	}
 	if v.Fn != nil && a.cell != nil && len(a.path) == 0 {
 		// function value stored in a local: remember statically
 		fr.fnCells()[a.cell] = v
@@ -1555,6 +1574,16 @@ func (fr *Frame) execSlice(st *State, x *ssa.Slice) {
 		}
 		// array lives in a local cell or inside a struct: copy semantics lost; give an opaque slice of right length
 		r := g.declare("asl", "Slice")
+		if a.cell != nil && fr.arrElems[a.cell] != nil {
+			var vs []Val
+			for i := int64(0); i < at.Len(); i++ {
+				vs = append(vs, fr.arrElems[a.cell][i])
+			}
+			if fr.varargs == nil {
+				fr.varargs = map[string][]Val{}
+			}
+			fr.varargs[r] = vs
+		}
 		g.assume(and("(= (sl_len "+r+") "+g.idxSub(hi, lo)+")", "(> (sl_ref "+r+") 0)", g.typeRange(r, x.Type())))
 		// contents: if cell-rooted, copy current contents into the fresh backing array
 		if a.cell != nil {
